@@ -86,6 +86,11 @@ CHECKS = {
          "spec/Lines.tla allows exactly three outcomes of parsing a line (nothing / rule with text = trimmed line and the given list id / error); a panic anywhere is an outcome the specification does not have. A seeded driver parses grammar lines, real-list lines and byte mutations of both, matches every parsed network rule against a request universe and loads batches into Engine and DNSEngine which are then queried; TLC validates every event (Trace_Lines). Storage!NoiseInert states that comment, blank and rejected lines do not change what a scan delivers; every MC_Storage storage is replayed against its denoised and its other-line-ending variant, comparing scans and engine answers.",
          "Trusted: TLC; strings.TrimSpace is logged as environment input. Breadth of crash hunting comes from the drivers, not from the model.",
          "6/C12"),
+ "C01": ("model_checking",
+         "TLC model of the three lookup tables run with REAL djb2 values (genuine collisions found by birthday search) over all insertion sequences, lookup = scan invariant; replay through RuleStorage + NetworkEngine against rule.Match; TLC trace validation on bundled lists",
+         "spec/NetIndex.tla models the histogram, shortcut, domain and sequential tables, AddRule's eligibility/least-used-window policy and MatchAll's probing with the rule re-check; the hash is a parameter instantiated with the real djb2 values exported by the harness, which include two pairs of genuinely colliding 5-character windows and a pair of colliding domain names. TLC explores every insertion sequence of up to 2 rules of the 59-rule pool and up to 3-4 of seeded sub-pools, checks LookupEqualsScan against 280 queries on the model and emits the expected sets; every sequence is loaded through RuleStorage and NewNetworkEngine (one and two lists) and texts(MatchAll) is compared with the specification and with the linear scan by rule.Match. The bundled real-world lists x requests.json are validated by Trace_NetIndex.",
+         "Trusted: TLC, rule.Match as the reference the property names, the pool renderer (shortcut and permitted domains cross-checked on the parsed rule).",
+         "6/C01"),
 }
 
 NOT_YET = "check not built yet in this session (see DESIGN.md section 6 for the planned TLA+ decision procedure)"
